@@ -363,6 +363,35 @@ def front_end_nulls(ctx, R):
     if n10 < 20:
         raise AnalysisBroken("front end: only %d advance/dereference pairs found" % n10)
 
+    # ---- R11: ownership transfer -------------------------------------------------------------------------------------------------------
+    n11 = 0
+    for f in mine:
+        sinks = [c for c in f.walk() if is_call(c) and callee(c).split("::")[-1] in ("pushOutput", "pushInput") and call_args(c)]
+        if not sinks:
+            continue
+        cfg = f.cfg
+        dels = [d_ for d_ in f.walk() if d_["k"] == "CXXDeleteExpr"]
+        for c in sinks:
+            a0 = strip(call_args(c)[0])
+            while a0["k"] == "UnaryOperator" and a0.get("op") == "&":
+                a0 = strip(kids(a0)[0])
+            if a0["k"] != "DeclRefExpr":
+                continue
+            n11 += 1
+            d_ = a0["d"]
+            rel = [x for x in dels if any(y["k"] == "DeclRefExpr" and y.get("d") == d_ for y in walk(x))]
+            writes = {w["i"] for w in f.local_defs().get(d_, []) if w["k"] != "VarDecl"}
+            p = None
+            for x in rel:
+                p = cfg.find_path(cfg.position(c), lambda b, i, e, x=x: e == x["i"], lambda b, i, e: isinstance(e, int) and e in writes)
+                if p is not None:
+                    break
+            R.ob("C16-R11", p is None, f.q, "%s(%s) not followed by delete" % (callee(c).split("::")[-1], a0.get("n")), f.site(c),
+                 "the cache owns the token from here on" if p is None else
+                 "the token is pushed into the cache and deleted on a later path: the cache keeps a dangling pointer (`#ifdef` without an identifier pushed the newline token and deleted it)", path=p)
+    if n11 < 15:
+        raise AnalysisBroken("front end: only %d cache hand-overs of a named token found" % n11)
+
     # ---- R5 -----------------------------------------------------------------------------------------------------------------
     okl = prog.fn("occa::lang::okl::pathHasValidOklLoopOrdering")
     limits = set()
@@ -418,6 +447,7 @@ def run(ctx):
     R.rule("C16-R8", "a macro object is deleted only through the entry of the map that owns it, which is erased with it", floor=5)
     R.rule("C16-R9", "std::sto* conversions of user-controlled text run inside a try block (they throw std:: exceptions)", floor=2)
     R.rule("C16-R10", "after the token cursor advances, the token under it is dereferenced only behind a size / safe-type test (the advance may reach the end)", floor=20)
+    R.rule("C16-R11", "a token handed to the input / output cache is not deleted afterwards by the function that handed it over", floor=15)
     R.rule("C16-R6", "a parser function that pushes a statement context pops it on every path to a normal exit", floor=8)
     R.rule("C16-R5", "the three-entry dimension arrays are indexed by an OKL loop index that the validator bounds by 3", floor=4)
 
